@@ -20,9 +20,12 @@ rc_suite, out = run("go test -count=1 -skip TestMutantDemo ./...")
 ran.append({"cmd": "go test -count=1 -skip TestMutantDemo ./... (with the change)", "rc": rc_suite, "tail": out[-300:]})
 rc_with, out_with = run("go test -count=1 -run TestMutantDemo . ")
 ran.append({"cmd": "go test -count=1 -run TestMutantDemo . (with the change)", "rc": rc_with, "tail": out_with[-600:]})
-run("git stash")
+# (no git stash: the stash is shared between worktrees)
+open("/tmp/keepmutant-%s.patch" % sid, "w").write(patch)
+run("git apply -R /tmp/keepmutant-%s.patch" % sid)
 rc_without, out_without = run("go test -count=1 -run TestMutantDemo . ")
-run("git stash pop")
+rc_restore, _ = run("git apply /tmp/keepmutant-%s.patch" % sid)
+os.remove("/tmp/keepmutant-%s.patch" % sid)
 ran.append({"cmd": "go test -count=1 -run TestMutantDemo . (change stashed)", "rc": rc_without, "tail": out_without[-300:]})
 ok = rc_build == 0 and rc_suite == 0 and rc_with != 0 and rc_without == 0
 print("build", rc_build, "suite", rc_suite, "demo-with", rc_with, "demo-without", rc_without, "=>", "CONFIRMED" if ok else "NOT CONFIRMED")
